@@ -92,6 +92,27 @@ pub struct TxCase {
     pub tasks: Vec<TxTask>,
     pub close_a: bool,
     pub close_b: bool,
+    /// close() is issued by its own task released together with the sender tasks (races with them)
+    /// instead of after they have finished
+    #[serde(default)]
+    pub race_close: bool,
+    /// payload sizes the closing side sends, one call after the other, after its close()
+    #[serde(default)]
+    pub post_a: Vec<u16>,
+    #[serde(default)]
+    pub post_b: Vec<u16>,
+    /// post-close sends start only once the close_notify is on the wire (else they race with it)
+    #[serde(default)]
+    pub post_wait_alert: bool,
+}
+
+/// close() while the handshake is frozen with keys negotiated (the alert is numbered by the
+/// handshake context, not by the application-data counter).
+#[derive(Clone, Debug, Serialize, Deserialize)]
+pub struct CloseMidCase {
+    pub a_is_client: bool,
+    pub hold: Hold,
+    pub salt: u8,
 }
 
 // ------------------------------------------------------------------ strategies
@@ -254,8 +275,27 @@ pub fn tx_strategy() -> impl Strategy<Value = TxCase> {
             (any::<bool>(), prop::collection::vec(tx_size(), 1..=4)).prop_map(|(from_a, sizes)| TxTask { from_a, sizes }),
             1..=16,
         ),
+        prop::bool::weighted(0.45),
+        prop::bool::weighted(0.35),
         prop::bool::weighted(0.4),
-        prop::bool::weighted(0.3),
+        prop::collection::vec(tx_size(), 0..=3),
+        prop::collection::vec(tx_size(), 0..=3),
+        any::<bool>(),
     )
-        .prop_map(|(a_is_client, tasks, close_a, close_b)| TxCase { a_is_client, tasks, close_a, close_b })
+        .prop_map(|(a_is_client, tasks, close_a, close_b, race_close, post_a, post_b, post_wait_alert)| TxCase {
+            a_is_client,
+            tasks,
+            close_a,
+            close_b,
+            race_close: race_close && (close_a || close_b),
+            // only a side that closed has an "after close"
+            post_a: if close_a { post_a } else { Vec::new() },
+            post_b: if close_b { post_b } else { Vec::new() },
+            post_wait_alert,
+        })
+}
+
+pub fn close_mid_strategy() -> impl Strategy<Value = CloseMidCase> {
+    (any::<bool>(), prop_oneof![Just(Hold::ServerFinal), Just(Hold::ClientFinal)], any::<u8>())
+        .prop_map(|(a_is_client, hold, salt)| CloseMidCase { a_is_client, hold, salt })
 }
